@@ -18,6 +18,7 @@ From Coq Require Import ZArith Reals List Bool.
 From Flocq Require Import Core.
 From BL Require Import Base.Ops Base.PairOps Base.FloatOps Base.RoundedOps Model.Solver
   Proofs.RoundedScaling Proofs.RoundedExample.
+From BL Require Proofs.C04Proofs.
 Import ListNotations.
 Local Open Scope R_scope.
 
@@ -82,6 +83,15 @@ Proof. exact binary_rounding_hom. Qed.
 Example Rounded_hypotheses_satisfiable : forall e : Z,
   bpow radix2 e <> 0 /\ 0 < bpow radix2 e /\ hom (rnd BinaryMode) (bpow radix2 e) /\ hom (rnd32 BinaryMode) (bpow radix2 e).
 Proof. exact BinaryMode_hom. Qed.
+(* ... and for s = -2^e (round to nearest even is odd): C04 homogeneity includes the exact sign symmetry *)
+Example Rounded_hypotheses_satisfiable_negative : forall e : Z,
+  - bpow radix2 e <> 0 /\ hom (rnd BinaryMode) (- bpow radix2 e) /\ hom (rnd32 BinaryMode) (- bpow radix2 e).
+Proof. exact BinaryMode_hom_neg. Qed.
+(* the request transformer of the C04 statement is C04_linear's `with_src` applied to the cell-wise scaled source *)
+Example Rounded_scaled_source_is_with_src : forall (m : RMode) (s : R) (a : args (RndOps m)),
+  scale_source_args m s a
+  = C04Proofs.with_src (RndOps m) a (map (map (scl s)) (a_q0 _ a)) (scl s (a_p000 _ a)).
+Proof. exact scale_source_is_with_src. Qed.
 Example Rounded_mode_is_not_exact : rnd BinaryMode (bpow radix2 53 + 1) <> bpow radix2 53 + 1.
 Proof. exact rn53_not_identity. Qed.
 
